@@ -808,6 +808,67 @@ def check_builtins(run, repo):
     run.extra['division_sites'] = ndiv
 
 
+KNOWN_TABLE_SITES = {
+    # (module relpath suffix, function qualname, subscript text): why the key is always present
+    ('memory_controller_hub.py', 'to_int', 'LENGTH_FORMATS[length]'): 'sizes are 1/2/4/8 (C13 accessor sizes; C16-L keys)',
+    ('memory_controller_hub.py', 'from_int', 'LENGTH_FORMATS[length]'): 'sizes are 1/2/4/8 (C13 accessor sizes; C16-L keys)',
+    ('memory_controller_hub.py', 'MemoryControllerHub.add_memory', 'MEMORY_TYPE_DICT[mem_type]'): 'construction time (configuration), not a step',
+}
+
+
+def check_const_tables(run, repo):
+    """C18-R10: a subscript of a module- or class-level constant table (dict / list / tuple literal) with a run-time key is a
+    KeyError / IndexError unless the key's domain is covered: frozen inventory of the existing sites; a new site is accepted only
+    when the table is keyed by *all* members of one Enum."""
+    tables = {}
+    for m in repo.modules.values():
+        tree = ast.parse(m.source)
+        for n in tree.body:
+            if isinstance(n, ast.Assign) and isinstance(n.value, (ast.Dict, ast.List, ast.Tuple)) and isinstance(n.targets[0], ast.Name) \
+                    and n.targets[0].id != '__all__':
+                tables[n.targets[0].id] = (m, n.value)
+            if isinstance(n, ast.ClassDef):
+                for c in n.body:
+                    if isinstance(c, ast.Assign) and isinstance(c.value, (ast.Dict, ast.List, ast.Tuple)) and isinstance(c.targets[0], ast.Name):
+                        tables[c.targets[0].id] = (m, c.value)
+    nsites = 0
+    for m in repo.modules.values():
+        tree = ast.parse(m.source)
+        for fn in ast.walk(tree):
+            if not isinstance(fn, (ast.FunctionDef, ast.AsyncFunctionDef)):
+                continue
+            cls = next((c.name for c in ast.walk(tree) if isinstance(c, ast.ClassDef) and fn in c.body), None)
+            qual = '%s.%s' % (cls, fn.name) if cls else fn.name
+            for n in ast.walk(fn):
+                if not (isinstance(n, ast.Subscript) and isinstance(n.ctx, ast.Load)):
+                    continue
+                base = ast.unparse(n.value).split('.')[-1]
+                if base not in tables or isinstance(n.slice, ast.Constant):
+                    continue
+                nsites += 1
+                txt = ast.unparse(n)
+                key = (m.relpath.split('/')[-1], qual, txt)
+                ok = key in KNOWN_TABLE_SITES
+                why = KNOWN_TABLE_SITES.get(key, '')
+                if not ok:
+                    tm, tv = tables[base]
+                    if isinstance(tv, ast.Dict) and tv.keys and all(isinstance(k, ast.Attribute) and isinstance(k.value, ast.Name) for k in tv.keys):
+                        enums = {k.value.id for k in tv.keys}
+                        if len(enums) == 1:
+                            r = repo.resolve_name(tm, enums.pop())
+                            if r and r[0] == 'class':
+                                members = {c.targets[0].id for c in r[1].node.body if isinstance(c, ast.Assign) and isinstance(c.targets[0], ast.Name)}
+                                have = {k.attr for k in tv.keys}
+                                ok = members <= have
+                                why = 'keyed by every member of %s' % r[1].name if ok else 'missing key(s) %s' % sorted(members - have)
+                run.instance('C18-R10', '%s %s' % (qual, txt), ok=ok, sample={'site': txt, 'function': qual, 'why': why})
+                if not ok:
+                    run.violation('C18-R10', m.relpath, qual, txt,
+                                  'lookup in the constant table `%s` with a run-time key that is not proved to be present (%s): KeyError / '
+                                  'IndexError escapes the step' % (base, why or 'no covering argument'))
+    run.floor('constant-table lookups', nsites, 3)
+
+
 def main(repo_path, tier, seed, replay=None):
     run = Run('C18', tier, level='other', seed=seed)
     repo = Repo(repo_path)
@@ -825,6 +886,7 @@ def main(repo_path, tier, seed, replay=None):
     check_asserts_and_indices(run, repo, eff, fr, fa)
     check_raises(run, repo)
     check_builtins(run, repo)
+    check_const_tables(run, repo)
     fa2 = FuncAnalyzer(repo)
     c10.check_widths(run, repo, eff, fr, fa2, rule='C18-R8', select=lambda ob: True if not ob.what.startswith(
         ('system register', 'argument')) else False)
